@@ -89,6 +89,7 @@ def run_c16(ctx, tier=None, seed=None):
     env = {'VERIF_LINES': 'rnd'}
     env.update(deep(ctx, tier, VERIF_NRANDOM=512))
     std_pipe(ctx, 'rnd-bases', 'fl', 'conv', 'others', env=env, tier=tier, seed=seed)
+    pow_lines(ctx, tier=tier, seed=seed, exact=False)
 
 
 spec('C16',
@@ -106,10 +107,19 @@ spec('C16',
 CMP_FORMS = 'eq|ne|lt|le|gt|ge|pcmp|cmp|ordmax|ordmin|clamp:[^ ]*'
 
 
+def pow_lines(ctx, tier=None, seed=None, exact=True):
+    """the factors of every base-unit combination (`coef.powi(exponent)`, which the other lines take from the
+    implementation) against the model of exponentiation by squaring and the exact rational power"""
+    std_pipe(ctx, 'base-factors', 'fl', 'conv', 'others', env={'VERIF_LINES': 'conv'}, tier=tier, seed=seed, only='^pow ', shards=1)
+    if exact:
+        std_pipe(ctx, 'base-factors-exact', 'wide', 'convx', 'exact', tier=tier, seed=seed, only='^xpow ', shards=1)
+
+
 def run_c06(ctx, tier=None, seed=None):
     # mixed-base operand pairs only (ul != ur): floats, BigRational, BigInt
     only = r'^(bin|mad|from) '
     std_pipe(ctx, 'ops-mixed', 'wide', 'ops', 'mixed', tier=tier, seed=seed, only=only)
+    pow_lines(ctx, tier=tier, seed=seed)
 
 
 spec('C06', run=run_c06, search=search_with(run_c06),
@@ -149,6 +159,7 @@ def run_c10(ctx, tier=None, seed=None):
     # the comparison impls have feature-gated twins: the same-base cases again without autoconvert
     std_pipe(ctx, 'hist-cmp-noauto', 'wide-noauto', 'hist', '', tier=tier, seed=seed, only=r'^b2 [^ ]+ (%s) ' % CMP_FORMS)
     std_pipe(ctx, 'ops-cmp-noauto', 'fl-noauto', 'ops', 'same', tier=tier, seed=seed, only=r'^bin [^ ]+ (eq|ne|lt|le|gt|ge|pcmp) ')
+    pow_lines(ctx, tier=tier, seed=seed)
     if (tier or ctx.tier) == 'thorough':
         std_pipe(ctx, 'hist-cmp-wide2', 'wide2', 'hist', '', tier=tier, seed=seed, only=r'^b2 (i8|i16|i128|u8|u16|u128|usize|rational32|rational) (%s) [a-z_]+ si ' % CMP_FORMS)
 
@@ -168,6 +179,7 @@ def run_c15(ctx, tier=None, seed=None):
     mixed_base_programs(ctx, select='.into()')
     # "a bare number converts to and from a ratio unchanged": all 13 storage types incl. complex, two base-unit sets
     std_pipe(ctx, 'ratio-number', 'wide', 'convx', 'num', tier=tier, seed=seed, shards=1)
+    pow_lines(ctx, tier=tier, seed=seed)
     # "no other conversion between quantities exists": rustc's verdict on `let _: B = a.into()` for every ordered
     # pair of classes of one dimension and a sample of the rest
     kind_conversion_probes(ctx, tier=tier, seed=seed)
@@ -374,6 +386,7 @@ def run_c09(ctx, tier=None, seed=None):
     std_pipe(ctx, 'temp-float-bases', 'fl', 'conv', 'others', env={'VERIF_LINES': 'conv'}, tier=tier, seed=seed, only='^conv [^ ]+ [^ ]+ %s ' % TEMP)
     std_pipe(ctx, 'temp-float-all-units', 'fl,allsi', 'conv', 'si', env={'VERIF_LINES': 'conv'}, tier=tier, seed=seed, only='^conv [^ ]+ [^ ]+ %s ' % TEMP)
     std_pipe(ctx, 'temp-arith', 'wide', 'ops', 'all', tier=tier, seed=seed, only='^bin [^ ]+ (tt|ti)[^ ]* ')
+    pow_lines(ctx, tier=tier, seed=seed)
     temperature_programs(ctx, tier=tier, seed=seed)
 
 
